@@ -202,19 +202,25 @@ Print Assumptions C08_tzstr_rejects_classes2.
 (* POSIX forms OUTSIDE wf_posix (so none of the theorems above speaks about them), on the faithful model:
    the quoted abbreviation '<+03>-3', the offset with seconds 'LMT0:25:21' and the signed rule time
    'EST5EDT,M3.2.0/-1,M11.1.0/2' are rejected with ValueError (open findings F-C08-quoted-names,
-   F-C08-offset-seconds, F-C08-signed-rule-time), and the deprecated comma format without a standard
-   offset 'xxx,1,2,3,4,5,6,7,8,9' raises TypeError instead of ValueError (F-C08-depcomma-typeerror).
+   F-C08-offset-seconds, F-C08-signed-rule-time).
    The remaining exclusions of wf_posix are not POSIX strings: unquoted names that are not >= 3 letters,
    rule times >= 168 h (POSIX.1-2024: at most 167).  Saving = 0 is outside guard_apart: differential only. *)
 Theorem C08_posix_forms_outside_wf_refuted :
   tzstr_init [60; 43; 48; 51; 62; 45; 51] false = Err EValue /\
   tzstr_init [76; 77; 84; 48; 58; 50; 53; 58; 50; 49] false = Err EValue /\
   tzstr_init [69; 83; 84; 53; 69; 68; 84; 44; 77; 51; 46; 50; 46; 48; 47; 45; 49; 44; 77; 49; 49; 46; 49;
-              46; 48; 47; 50] false = Err EValue /\
-  tzstr_init [120; 120; 120; 44; 49; 44; 50; 44; 51; 44; 52; 44; 53; 44; 54; 44; 55; 44; 56; 44; 57] false
-    = Err EType.
+              46; 48; 47; 50] false = Err EValue.
 Proof. exact posix_forms_rejected_lemma. Qed.
 Print Assumptions C08_posix_forms_outside_wf_refuted.
+
+(* malformed -> ValueError: the deprecated comma format WITHOUT a standard offset and with the trailing
+   daylight delta, 'xxx,1,2,3,4,5,6,7,8,9' (it raised TypeError before /repo b3bd589: finding
+   F-C08-depcomma-typeerror, fixed) *)
+Theorem C08_deprecated_format_without_offset_rejected :
+  tzstr_init [120; 120; 120; 44; 49; 44; 50; 44; 51; 44; 52; 44; 53; 44; 54; 44; 55; 44; 56; 44; 57] false
+    = Err EValue.
+Proof. exact deprecated_without_offset_rejected_lemma. Qed.
+Print Assumptions C08_deprecated_format_without_offset_rejected.
 
 (* tzlocal: for ANY C library isdst function, any offsets with altzone <> timezone, and every UTC
    instant, tzlocal reports the C library's answer (offset, dst, abbreviation) on the wall reading
